@@ -340,6 +340,20 @@ func cmdC14(c *ctx) {
 			}
 			ovs = append(ovs, o)
 		}
+		// every 24th module (another clean one) initialises an override from a module-scope constant: `const KC: i32 = v;
+		// override ovc: i32 = KC * 3i;` (choices derived from i, as above)
+		ovconst := i%24 == 12
+		var kcVal *wexpr
+		if ovconst {
+			knob = "ovconst"
+			kcVal = lit32(tI32, uint32(int32(i/24%19-9)))
+			kc := &wexpr{k: "var", ty: tI32, name: "KC", konst: true}
+			init := kc
+			if i/24%2 == 1 {
+				init = wBin(tI32, "*", kc, lit32(tI32, 3))
+			}
+			ovs = append(ovs, ovDecl{name: "ovc", ty: tI32, id: -1, init: init, how: "absent"})
+		}
 		arrLen := 0
 		if ovarr {
 			o := ovDecl{name: "ovn", ty: tU32, id: -1, init: lit32(tU32, uint32(1+i/24%8)), how: "absent"}
@@ -384,6 +398,10 @@ func cmdC14(c *ctx) {
 					walkLits(o.init)
 				}
 			}
+		}
+		if ovconst {
+			decls.WriteString("const KC: i32 = " + kcVal.wgsl() + ";\n")
+			ref.consts = append(ref.consts, &wstmt{k: "const", name: "KC", ty: tI32, e: kcVal})
 		}
 		for _, o := range ovs {
 			if o.id >= 0 {
@@ -600,7 +618,7 @@ func cmdC14(c *ctx) {
 		emit(fmt.Sprintf("(c14 (expecterr %s) (ast %s) (ir %s) (inputs %s %s))", q(expectErr), ref.sexp(), dumpModule(clone), wordsSexp(0, inp), wordsSexp(1, outp)), status)
 		// the back ends' own pipeline-constant options (msl: its own substitution; glsl: ProcessOverrides on an internal
 		// clone): the emitted text, executed, must compute what the substituted reference program computes
-		if expectErr == "" && (knob == "clean" || knob == "badval" || knob == "ovarr") {
+		if expectErr == "" && (knob == "clean" || knob == "badval" || knob == "ovarr" || knob == "ovconst") {
 			for _, route := range []string{"msl", "glsl"} {
 				m2, _ := frontEnd(src)
 				if m2 == nil {
